@@ -492,7 +492,11 @@ fn anf<'a>(
         ),
         LiftExpr::EUnary { op, expr, ty: _ } => {
             let op_copy = op;
-            anf_imm(
+            // Go evaluates operators on literals at compile time, exactly, and rejects results
+            // that do not fit ("constant -1 overflows uint8"): keep such operands in variables.
+            let name_operand = matches!(op, common_defs::UnaryOp::Neg) && is_unsigned_literal(&expr);
+            anf_operand(
+                name_operand,
                 anfenv,
                 gensym,
                 *expr,
@@ -512,14 +516,20 @@ fn anf<'a>(
             ty: _,
         } => {
             let op_copy = op;
-            anf_imm(
+            // `127i8 + 1i8` or `x / 0` would be folded (and rejected) by the Go compiler, and
+            // float literals would be combined exactly instead of in floating point.
+            let name_lhs = is_numeric_literal(&lhs) && is_numeric_literal(&rhs);
+            let name_rhs = matches!(op, common_defs::BinaryOp::Div) && is_integer_zero_literal(&rhs);
+            anf_operand(
+                name_lhs,
                 anfenv,
                 gensym,
                 *lhs,
                 Box::new(move |lhs_imm| {
                     let op_copy = op_copy;
                     let e_ty = e_ty.clone();
-                    anf_imm(
+                    anf_operand(
+                        name_rhs,
                         anfenv,
                         gensym,
                         *rhs,
@@ -626,6 +636,84 @@ fn anf<'a>(
                 })
             }),
         ),
+    }
+}
+
+fn is_numeric_literal(e: &LiftExpr) -> bool {
+    matches!(
+        e,
+        LiftExpr::EPrim {
+            value: Prim::Int8 { .. }
+                | Prim::Int16 { .. }
+                | Prim::Int32 { .. }
+                | Prim::Int64 { .. }
+                | Prim::UInt8 { .. }
+                | Prim::UInt16 { .. }
+                | Prim::UInt32 { .. }
+                | Prim::UInt64 { .. }
+                | Prim::Float32 { .. }
+                | Prim::Float64 { .. },
+            ..
+        }
+    )
+}
+
+fn is_unsigned_literal(e: &LiftExpr) -> bool {
+    matches!(
+        e,
+        LiftExpr::EPrim {
+            value: Prim::UInt8 { .. }
+                | Prim::UInt16 { .. }
+                | Prim::UInt32 { .. }
+                | Prim::UInt64 { .. },
+            ..
+        }
+    )
+}
+
+fn is_integer_zero_literal(e: &LiftExpr) -> bool {
+    matches!(
+        e,
+        LiftExpr::EPrim {
+            value: Prim::Int8 { value: 0 }
+                | Prim::Int16 { value: 0 }
+                | Prim::Int32 { value: 0 }
+                | Prim::Int64 { value: 0 }
+                | Prim::UInt8 { value: 0 }
+                | Prim::UInt16 { value: 0 }
+                | Prim::UInt32 { value: 0 }
+                | Prim::UInt64 { value: 0 },
+            ..
+        }
+    )
+}
+
+/// Like `anf_imm`, but when `name_it` is set even a literal is bound to a fresh variable.
+fn anf_operand<'a>(
+    name_it: bool,
+    anfenv: &'a GlobalAnfEnv,
+    gensym: &'a Gensym,
+    e: LiftExpr,
+    k: Box<dyn FnOnce(ImmExpr) -> AExpr + 'a>,
+) -> AExpr {
+    match e {
+        LiftExpr::EPrim { value, ty } if name_it => {
+            let name = gensym.gensym("t");
+            let body_expr = k(ImmExpr::ImmVar {
+                name: name.clone(),
+                ty: ty.clone(),
+            });
+            let body_ty = body_expr.get_ty();
+            AExpr::ALet {
+                name,
+                value: Box::new(CExpr::CImm {
+                    imm: ImmExpr::ImmPrim { value, ty },
+                }),
+                body: Box::new(body_expr),
+                ty: body_ty,
+            }
+        }
+        other => anf_imm(anfenv, gensym, other, k),
     }
 }
 
